@@ -68,7 +68,10 @@ func drawFault(tp *tape.Tape, fresh func() string) fault {
 	x, y, z := fresh(), fresh(), fresh()
 	pre := x + " = " + fmt.Sprint(1+tp.Draw(9))
 	var probes []string
-	switch tp.Draw(6) {
+	switch tp.Draw(7) {
+	case 6: // ... a function that calls itself and, at the bottom, fails: a later failure runs through call sites compiled inside the failed statement
+		pre = fmt.Sprintf("%s = (n) -> if n <= 0 {\n%d / (n - n)\n} else {\nn + %s(n - 1)\n}", x, 1+tp.Draw(9), x)
+		probes = []string{fmt.Sprintf("%s(%d)", x, 1+tp.Draw(4))}
 	case 1: // the completed prefix binds a function: its code lives inside the failed statement
 		c := 2 + tp.Draw(7)
 		pre = fmt.Sprintf("%s = (n) -> n * %d + %d", x, c, tp.Draw(9))
